@@ -576,16 +576,17 @@ func (ctx *Context) evaluate() {
 
 			step := IntType(1)
 			length := _b - _a
-			if length < 0 {
+			if _b < _a {
 				step = -1
-				length = -length
+				length = _a - _b
 			}
-			length += 1
 
-			if length > 512 {
+			// length < 0: 两端相距超过 int64 的范围
+			if length < 0 || length >= 512 {
 				ctx.Error = errors.New("不能一次性创建过长的数组")
 				return
 			}
+			length += 1
 
 			arr := make([]*VMValue, length)
 			index := 0
